@@ -83,3 +83,23 @@ def exactness(ctx, rep, rid_prefix, directions, rids=None):
                         + f' [schema {s.sch.show()}]',
                         logic=s.lg.name, rule=s.rc.name, direction=d, valuation=v, schema=s.sch.show())
     return counts
+
+
+def bookkeeping(ctx, rep, R, prefix, only=None):
+    """The helpers that decide *which* nodes / constants / worlds a rule is applied to, folded as inductive steps
+    (sa.helpersfold).  Shared by C04.R7 (rules reach every instance), C02.R6 and C03.R5 (an open finished branch is saturated)."""
+    from .. import helpersfold
+    m = ctx.m
+    n = 0
+    for fold in (helpersfold.fold_filter_cache, helpersfold.fold_nodeconsts, helpersfold.fold_extended_quantifier_targets,
+                 helpersfold.fold_world_index, helpersfold.fold_unserial, helpersfold.fold_counts):
+        if only and fold.__name__ not in only:
+            continue
+        res, cons = fold(m)
+        rep.consult(*cons)
+        for ok, case, detail in res:
+            n += 1
+            rep.instance(R, ok=ok, sample=dict(fold=fold.__name__, case=case), nontrivial=(fold.__name__, case))
+            if not ok:
+                rep.finding(R, f'{prefix}/{fold.__name__[5:]}/{case}', cons[0].split(' ')[0], fold.__name__[5:], f'{case}: {detail}')
+    return n
